@@ -238,4 +238,28 @@ THEOREM EqContentIsAnEquivalence ==
 <1>4. (EqContentP(a, b) /\ EqContentP(b, c)) => EqContentP(a, c)
   BY <1>1 DEF EqContentP
 <1> QED BY <1>2, <1>3, <1>4
+
+\* ---- metadata rows (C18): RowKeysP, RowUpdateP, RowDeleteP restate RowKeys, RowUpdate, RowDelete of BiomTable
+RowKeysP(r) == {e[1] : e \in r}
+RowUpdateP(old, new) == {e \in old : e[1] \notin RowKeysP(new)} \cup new
+RowDeleteP(old, keys) == {e \in old : e[1] \notin keys}
+
+\* C18: adding metadata sets exactly the given keys (overwriting same-named ones) and keeps every other key;
+\* deleting removes exactly the named keys; both are idempotent
+THEOREM RowUpdateLaws ==
+  ASSUME NEW old, NEW new
+  PROVE  /\ new \subseteq RowUpdateP(old, new)
+         /\ \A e \in old : e[1] \notin RowKeysP(new) => e \in RowUpdateP(old, new)
+         /\ \A e \in RowUpdateP(old, new) : e \in new \/ (e \in old /\ e[1] \notin RowKeysP(new))
+         /\ RowKeysP(RowUpdateP(old, new)) = RowKeysP(old) \cup RowKeysP(new)
+         /\ RowUpdateP(RowUpdateP(old, new), new) = RowUpdateP(old, new)
+  BY DEF RowUpdateP, RowKeysP
+
+THEOREM RowDeleteLaws ==
+  ASSUME NEW old, NEW keys
+  PROVE  /\ RowKeysP(RowDeleteP(old, keys)) = RowKeysP(old) \ keys
+         /\ \A e \in old : e[1] \notin keys => e \in RowDeleteP(old, keys)
+         /\ RowDeleteP(old, keys) \subseteq old
+         /\ RowDeleteP(RowDeleteP(old, keys), keys) = RowDeleteP(old, keys)
+  BY DEF RowDeleteP, RowKeysP
 =============================================================================
